@@ -134,9 +134,12 @@ func (m *Manager) startPipeline(ctx context.Context, pipeline ledger.Pipeline) (
 
 	// ignore the cancel function, as it will be called by the pipeline at its end
 	subscription := make(chan uint64)
+	stateStored := make(chan struct{})
+	pipelineHandler.stateStored = stateStored
 
 	m.logger.Infof("starting handler")
 	go func() {
+		defer close(stateStored)
 		for lastLogID := range subscription {
 			if err := m.storage.StorePipelineState(ctx, pipeline.ID, lastLogID); err != nil {
 				m.logger.Errorf("Unable to store state: %s", err)
@@ -145,10 +148,11 @@ func (m *Manager) startPipeline(ctx context.Context, pipeline ledger.Pipeline) (
 	}()
 	go func() {
 		defer func() {
+			// closed before taking the lock: stopPipeline waits for the state writer while holding it
+			close(subscription)
 			m.mu.Lock()
 			defer m.mu.Unlock()
 			defer m.pipelinesWaitGroup.Done()
-			close(subscription)
 		}()
 		pipelineHandler.Run(ctx, subscription)
 	}()
@@ -164,6 +168,15 @@ func (m *Manager) stopPipeline(ctx context.Context, id string) error {
 
 	if err := handler.Shutdown(ctx); err != nil {
 		return fmt.Errorf("error stopping pipeline: %w", err)
+	}
+	// The state writer may still be storing the last position: wait for it, otherwise that write
+	// lands after whatever the caller does next (a reset would see its cleared position overwritten).
+	if handler.stateStored != nil {
+		select {
+		case <-handler.stateStored:
+		case <-ctx.Done():
+			return ctx.Err()
+		}
 	}
 	delete(m.pipelines, id)
 
